@@ -314,7 +314,7 @@ PROPS["C13"] = dict(
 )
 
 PROPS["C19"] = dict(
-    lean_targets=["SJ.Props.C19", "SJ.Audit.C19"],
+    lean_targets=["SJ.Props.C19", "SJ.Props.C01Iff", "SJ.Audit.C19"],
     configs=dict(quick=["rv"], thorough=["rv", "rvpofr"]),
     gen_keys=["error.", "de."],
     rule=PARSE_RULE + " C19 adds, with raw_value enabled: every token sequence of length <= 2 (thorough 3), generated documents and "
@@ -327,12 +327,11 @@ PROPS["C19"] = dict(
     trusted_base=MACHINE_TB,
     assumptions=["RawValue's transmutes between str and RawValue (layout) are outside the model",
                  "nested captures (array element, object value, struct field) are checked against generator-known spans, not modelled"],
-    partial=["c19_skip_language (scanner accepts exactly the RFC 8259 grammar) = c01_complete_ignored + c19_skip_sound, proved on the "
-             "completeness/soundness branches; until merged the correspondence compares IgnoredAny with the independent recogniser on every input",
-             "c19_verbatim (serialising writes the text unchanged) is by correspondence only"],
+    partial=["c19_verbatim (serialising writes the text unchanged) and nested capture positions are by correspondence only"],
     technique="Lean 4 theorems on the top-level capture model (runPrefix = feed + finish: the captured span is accepted on its own as one "
               "value; surroundings are whitespace) + span-exact differential run with generator-known element spans",
-    level_text="Machine-checked: runPrefix_feed and c19_captured_reparses (whatever is captured at top level, taken on its own, is "
+    level_text="Machine-checked: c19_skip_language (the scanner of skipped/raw content accepts a byte string iff it is exactly one RFC "
+               "8259 JSON text, with no depth, surrogate, UTF-8 or range condition), runPrefix_feed and c19_captured_reparses (whatever is captured at top level, taken on its own, is "
                "accepted by the scanner as exactly one value, from the first non-whitespace byte), skipWs_prefix (only whitespace "
                "precedes it; rawTop rejects anything but whitespace after it). The crate's captures at top level and at every "
                "nested position are compared byte for byte with the source spans; from_string/to_string/to_value round trips are "
@@ -342,7 +341,7 @@ PROPS["C19"] = dict(
 )
 
 PROPS["C01"] = dict(
-    lean_targets=["SJ.Props.C01", "SJ.Audit.C01"],
+    lean_targets=["SJ.Props.C01", "SJ.Props.C01Iff", "SJ.Audit.C01"],
     configs=dict(quick=["d", "ap"], thorough=["d", "ap", "fr", "po", "ud"]),
     gen_keys=["error.", "de."],
     rule=PARSE_RULE + " Accept/reject of the crate is compared with the model and with the independent recursive-descent "
@@ -350,15 +349,16 @@ PROPS["C01"] = dict(
     trusted_base=MACHINE_TB,
     assumptions=["under arbitrary_precision / raw_value the Value visitor special-cases objects whose first key is the private "
                  "Number/RawValue token; such inputs are outside the generators"],
-    partial=["soundness (accepted => JsonText + side conditions) = c02_denotes is being proved on a separate branch; until merged "
-             "that direction is carried by the exhaustive-token correspondence against the independent recogniser"],
-    technique="Lean 4 theorem: completeness of the byte-step machine w.r.t. an inductive RFC 8259 grammar (induction on derivations, "
-              "all configurations/sources) + exhaustive-token differential run against the crate and an independent recogniser",
+    partial=[],
+    technique="Lean 4 theorem c01_accepts_iff: the byte-step machine accepts exactly an inductive RFC 8259 grammar plus the stated side "
+              "conditions (completeness by induction on derivations, soundness by a zipper invariant over every step) + "
+              "exhaustive-token differential run against the crate and an independent recogniser",
     level_text="Machine-checked: c01_complete_value — every byte string that is one RFC 8259 JSON text (inductive byte-level grammar) "
                "nested at most 127 deep (or limit off), with paired surrogates, UTF-8 strings (byte sources) and numbers in range "
                "(not needed under arbitrary_precision: c01_complete_value_ap) is accepted by the parser model and yields the value "
                "it denotes; c01_complete_ignored (skipped content accepts every JSON text without side conditions); "
-               "c01_empty_rejected, c01_leading_ws / c01_trailing_ws. The converse is c02_denotes (separate branch). The crate's "
+               "c01_empty_rejected, c01_leading_ws / c01_trailing_ws; with the converse c02_denotes this gives c01_accepts_iff "
+               "(accept <=> JSON text + side conditions) and c19_skip_language (skipped content <=> JSON text). The crate's "
                "accept/reject on every token sequence up to length 3-4, depth profiles 126-130, documents and mutations is compared "
                "with the model and with an independent recogniser.",
     level_note="Trusted: Lean kernel + 3 standard axioms; extract.py (depth 128, whitespace set, literals regenerated); harness/driver; "
@@ -366,19 +366,20 @@ PROPS["C01"] = dict(
 )
 
 PROPS["C02"] = dict(
-    lean_targets=["SJ.Props.C02Map", "SJ.Props.C06Int", "SJ.Audit.C02"],
+    lean_targets=["SJ.Props.C02", "SJ.Props.C02Map", "SJ.Props.C06Int", "SJ.Props.C01Iff", "SJ.Audit.C02"],
     configs=dict(quick=["d", "po", "ap"], thorough=["d", "po", "fr", "ap"]),
     gen_keys=["error.", "de."],
     rule=PARSE_RULE + " The returned Value (tagged tree: integers exact, floats as bit patterns, object keys in iteration order) "
          "is compared with the model and with the independent denotation Spec.Canon.canon of the recognised syntax tree.",
     trusted_base=MACHINE_TB,
     assumptions=["float values are whatever the configured conversion returns: their accuracy is C07/C08, not C02"],
-    partial=["c02_denotes (every accepted text yields canon of a syntax tree of that text) is being proved on the soundness branch; "
-             "the converse direction (completeness, with the value) is c01_complete_value"],
+    partial=[],
     technique="Lean 4 theorems: objects built by sequential insertion = one entry per distinct key with the last value, sorted / "
               "first-occurrence order (mkObj = objectOf, both builds); the overflow! guard = mathematical comparison and integer "
               "classification of every digit string; completeness with value (C01) + value-level differential run",
-    level_text="Machine-checked for all member lists and all digit strings: c02_object_keys_distinct, c02_object_last_duplicate_wins, "
+    level_text="Machine-checked: c02_denotes / c02_value_is_canon (every accepted text has a syntax tree whose denotation canon is the "
+               "returned Value, with all side conditions), c02_array_order, c02_string_is_decoded_text; and for all member lists and all "
+               "digit strings: c02_object_keys_distinct, c02_object_last_duplicate_wins, "
                "c02_object_sorted_default, c02_object_first_occurrence_order, c02_mkObj_eq_objectOf, c02_canonM_eq_canon; "
                "c06_overflow_guard_spec, c06_parse_integer (u64 iff in [0,2^64), i64 iff in [-2^63,0), otherwise float), c06_minus_zero "
                "(-0 is the float 0x8000000000000000), c06_out_of_integer_range. Together with c01_complete_value (the accepted value "
